@@ -45,13 +45,13 @@ MORE = {
          "Reachability fixpoint of the real ParameterNumberMessageScanner x reference model, all 8x128 concrete inputs applied from every reached state; thorough adds the complete concrete fixpoint (4.3M states, 4.4e9 transitions) on one channel and a stateright cross-count.",
          "Byte-value abstraction in the quick tier (DESIGN 3.3).", "4 C11"),
  "C12": (True, MC, "explicit-state model checking of the real scanner x a generator automaton of the documented grammar under a mock clock; exhaustive encode-feed-poll from every state of the observer fixpoint; hooked-vs-unhooked transcript conformance",
-         "Fixpoint of real polling scanner x grammar generator (timeouts 0, 1.5 ms, 2 ms) with early/late polls, ticks, long pauses and non-contributing messages anywhere; a two-channel product of two generators through one scanner; encode->feed->poll from every state of the C14 fixpoint x ~1000 messages x both byte orders; the hook is bound to the shipped build by an all-sequences transcript comparison with the real-clock build.",
+         "Fixpoint of real polling scanner x grammar generator (timeouts 0, 0.5 ms and 1.5 ms on quarter/half millisecond ticks, 2 ms, and five astronomically long timeouts that alias to zero under truncation) with early/late polls, ticks, long pauses and non-contributing messages anywhere; a two-channel product of two generators through one scanner; encode->feed->poll from every state of the C14 fixpoint x ~1000 messages x both byte orders; the hook is bound to the shipped build by an all-sequences transcript comparison with the real-clock build.",
          "Mock clock hook (add-only, cfg-guarded); byte-value abstraction; ages saturate at CAP.", "4 C12"),
- "C13": (True, MC, "explicit-state model checking of the real scanner x history observer under a mock clock, timeouts {0, 2 ms, inf}",
-         "Fixpoint over feeds (contributing and non-contributing), polls, resets, reset storms, 1 ms ticks and long pauses (2^20, 2^32-2, 2^32 ms); timeouts 0, 1.5 ms, 2 ms, 2^40 ms; rules R1-R5 judged on every transition; every feed re-executed at four later instants; one- and two-step concrete probes; CAP-doubling rerun and stateright cross-count in thorough.",
+ "C13": (True, MC, "explicit-state model checking of the real scanner x history observer under a mock clock, timeouts {0, 0.5 ms, 1.5 ms, 2 ms, 2^40 ms, five astronomically long}",
+         "Fixpoint over feeds (contributing and non-contributing), polls, resets, reset storms, clock ticks and long pauses (998, 1000, 2^20, 2^32-2, 2^32 ms); timeouts 0, 0.5 ms and 1.5 ms (quarter / half millisecond ticks), 2 ms, 2^40 ms, and 2^32 ms, 2^55 s, 2^58 s, 2^61 s, Duration::MAX (each aliases to zero under one truncating conversion); pumped cycles; rules R1-R5 judged on every transition; every feed re-executed at four later instants; one- and two-step concrete probes; CAP-doubling rerun and stateright cross-count in thorough.",
          "Mock clock hook; byte-value abstraction with concretisation probes; age saturation (cross-checked by doubling).", "4 C13"),
  "C14": (True, MC, "explicit-state model checking of the real scanner x history observer (literal reading of the statement's clauses P1-P7)",
-         "Same product as C13 (timeouts 0, 2 ms, 2^40 ms) with the no-fabrication / no-duplication / no-loss rules P1-P7; malformed and mixed-kind traffic, non-contributing traffic, reset storms and long pauses are part of the alphabet.",
+         "Same product as C13 (timeouts 0, 2 ms, 2^40 ms and the five astronomically long ones) with the no-fabrication / no-duplication / no-loss rules P1-P7; malformed and mixed-kind traffic, non-contributing traffic, reset storms and long pauses are part of the alphabet.",
          "Mock clock hook; byte-value abstraction with concretisation probes; age saturation.", "4 C14"),
  "C15": (True, MC, "explicit-state model checking of a two-channel product (multi-channel scanner vs two solo scanners) for channel pairs, all three scanners",
          "Fixpoint of (M, A, B) per channel pair with distinct per-channel values, system messages that look like (N)RPN traffic, third-channel traffic, polls, ticks, 2^32 ms pauses and reset storms with traffic; quick: 14 pairs incl. all {c, c+8} and 2 triples (M, A, B, C); thorough: all 120 pairs and 6 triples.",
@@ -60,7 +60,7 @@ MORE = {
          "Every state of each scanner's abstract fixpoint x ~20k-50k non-contributing messages: no report and == state; predicates for all 128 controller numbers; converse link between predicate and observed behaviour.",
          "Derived PartialEq is the notion of 'equal state'. Data-byte grid of 13 values for non-CC messages in quick (full 128^2 in thorough).", "4 C16"),
  "C17": (True, MC, "explicit-state fixpoints with reset/copy probes in every reachable state and replay of every BFS path on a fresh object",
-         "In every reachable state (complete concrete state space for the 14-bit scanner): reset()==new() by PartialEq AND by behaviour (all continuations up to 3 feeds, with polls, compared with a new scanner), also after storms of 256 / 65536 resets and after traffic on all 16 channels; copies evolve identically; every path re-derived on a fresh scanner (catches state outside the value); three-channel products; new()==default().",
+         "In every reachable state (complete concrete state space for the 14-bit scanner): reset()==new() by PartialEq AND by behaviour (all continuations up to 3 feeds, with polls, compared with a new scanner), also after storms of 256 / 65536 resets (thorough: 2^32 resets in a row per scanner type) and after traffic on all 16 channels; copies evolve identically; every path re-derived on a fresh scanner (catches state outside the value); three-channel products; new()==default().",
          "Continuations of the behavioural comparison are bounded to 3 feeds; PartialEq is used for the equality clause only.", "4 C17"),
  "C18": (True, SWEEP, "exhaustive re-execution of the API domains and scanner fixpoints inside allocation-counting regions and catch_unwind in an unoptimised build, three configurations",
          "Counting #[global_allocator] + catch_unwind around every API region in opt-level-0 builds of configurations std (mock clock), no-default-features and real clock; documented panics must occur.",
